@@ -19,6 +19,7 @@ EXPLANATION = (
     "advances by step(time,1), filters number(time) % dt == 0 iff dt > 1 (C17.RANGE); every replace(month=/year=) that "
     "keeps the day of month receives only floor/step results (C17.CALFIELD); no zone-sensitive entry point (C18.TZAPI) "
     "and no state shared between units or calls (C17.STATE).  Week numbers / day-of-year values are not decided."
+    "  C17.RANGE is decided after generator fusion when the enumeration lives in a generator helper; C17.CALFIELD follows a step applied to a helper's parameter to the helper's call sites."
 )
 ASSUMPTIONS = ["offset()/step are applied to unit boundaries (property statement: 'stepping a boundary')"]
 
